@@ -688,3 +688,36 @@ def gen(rng, cfg, tier='quick', effects=False, td=None, size=None, all_outputs=F
     if kf:
         td = dict(td, kf=list(kf))
     return Gen(rng, cfg, td, size, effects, trig, kf).build(all_outputs)
+
+
+# ------------------------------------------------------------------ sorting / selection on exact values (C29)
+
+def _exact_list(a):
+    if not all(exact(x) for x in a):
+        raise Undecided
+    return [x[0] for x in a]
+
+
+_op('sorted', lambda c, a, p: [c.rt.sorted(a[0], reverse=bool(p.get('reverse')))],
+    lambda t, a, p: [[I(v) for v in sorted(_exact_list(a[0]), reverse=bool(p.get('reverse')))]])
+_op('min_max', lambda c, a, p: list(c.rt.min_max(a[0])),
+    lambda t, a, p: [I(min(_exact_list(a[0]))), I(max(_exact_list(a[0])))])
+_op('argmin', lambda c, a, p: list(c.rt.argmin(a[0])),
+    lambda t, a, p: [I(_exact_list(a[0]).index(min(_exact_list(a[0])))), I(min(_exact_list(a[0])))])
+_op('argmax', lambda c, a, p: list(c.rt.argmax(a[0])),
+    lambda t, a, p: [I(_exact_list(a[0]).index(max(_exact_list(a[0])))), I(max(_exact_list(a[0])))])
+
+
+def gen_fixed(cfg, td, values, stmts, outputs, sender=0):
+    """values: list of exact dyadic Fractions given by one sender as a list input 'x'."""
+    m = cfg.m
+    enc = [[v.numerator, v.denominator] for v in values]
+    integral = all(v.denominator == 1 for v in values)
+    st = []
+    xs = []
+    for i, e in enumerate(enc):
+        d = [1, 1] if e[1] == 1 else [1, 2]
+        st.append(['input', [f'x{i}'], [], {'sender': sender % m, 'value': e, 'dummy': d}])
+        xs.append(f'x{i}')
+    st.append(['mklist', ['x'], xs, {}])
+    return {'family': NAME, 'type': td, 'stmts': st + stmts, 'outputs': outputs, 'tags': []}
